@@ -3,7 +3,7 @@
    The instance is the "diamond with a repeated leaf" also replayed against the real code
    (corpus/C15). *)
 From GoCar Require Import Bytes Varint Cid Header Frame V2Header Scan Index Traversal.
-From GoCarProofs Require Import BytesFacts VarintFacts CidFacts ScanFacts TraversalSpec TraversalV2 TraversalRoot.
+From GoCarProofs Require Import BytesFacts VarintFacts CidFacts HeaderFacts ScanFacts TraversalSpec TraversalV2 TraversalRoot.
 
 (* CIDv1, identity multihash: 01 <codec> 00 <len> <digest> *)
 Definition ex_root : bytes := [x01; x71; x00; x01; x72].          (* dag-cbor, digest "r" *)
@@ -38,6 +38,7 @@ Example ex_first_occ :
 Proof. reflexivity. Qed.
 
 Definition ex_order (l : list (bytes * N)) : list (bytes * N) := rev l.   (* some map iteration order *)
+Definition id_order (l : list (bytes * N)) : list (bytes * N) := l.
 
 (* TraverseV1 on the instance: three sections, 3rd load of the leaf not written again *)
 Example ex_traverse_v1 :
@@ -67,16 +68,54 @@ Example ex_offset_impossible :
 Proof. apply write_v2_header_wraps; cbn [o_dpad]; unfold two64; lia. Qed.
 
 (* ---- the loader as it was: refuted, and what did hold --------------------------------------------- *)
-(* with a repeated load the announced size (68) exceeds what the teeing pass writes (59):
-   WriteTo fails with ErrSizeMismatch although both walks saw exactly the same loads *)
+(* The witness is the load sequence recorded from the real code in corpus/C15/
+   dup-loads-size-mismatch.case: a dag-cbor root {l0: leaf, l1: leaf} (sha2-256 CIDs) walked
+   with AllowDuplicatePuts(true) opens root, leaf, leaf.  The unrepaired counting loader announces
+   323 bytes, the teeing loader writes 254: WriteTo returns 305 = 51 + 254 and ErrSizeMismatch --
+   exactly what the implementation did before the fix (header data size 0x143, count 0x131). *)
+Definition wit_root : bytes := [x01; x71; x12; x20; x5f; x33; x7e; x80; x44; xdf; xc5; x6c; x83; x2f; x97; x4f; x93; x48; x0a; x84; xce; xed; x19; x7c; xbc; x57; xb8; x27; x01; x3b; x74; x74; x3a; x0c; x87; xdc].
+Definition wit_c0 : bytes := [x01; x71; x12; x20; x5f; x33; x7e; x80; x44; xdf; xc5; x6c; x83; x2f; x97; x4f; x93; x48; x0a; x84; xce; xed; x19; x7c; xbc; x57; xb8; x27; x01; x3b; x74; x74; x3a; x0c; x87; xdc].
+Definition wit_d0 : bytes := [xa2; x62; x6c; x30; xd8; x2a; x58; x25; x00; x01; x55; x12; x20; x2e; x65; xb9; xe1; x79; xb0; xa9; x12; x0e; xe2; x89; xca; x80; xbf; x4d; x28; x0e; x4c; x79; x5d; x60; xe0; xa8; xd4; x08; x85; xb0; x04; x9c; x91; x92; x0a; x62; x6c; x31; xd8; x2a; x58; x25; x00; x01; x55; x12; x20; x2e; x65; xb9; xe1; x79; xb0; xa9; x12; x0e; xe2; x89; xca; x80; xbf; x4d; x28; x0e; x4c; x79; x5d; x60; xe0; xa8; xd4; x08; x85; xb0; x04; x9c; x91; x92; x0a].
+Definition wit_c1 : bytes := [x01; x55; x12; x20; x2e; x65; xb9; xe1; x79; xb0; xa9; x12; x0e; xe2; x89; xca; x80; xbf; x4d; x28; x0e; x4c; x79; x5d; x60; xe0; xa8; xd4; x08; x85; xb0; x04; x9c; x91; x92; x0a].
+Definition wit_d1 : bytes := [x6c; x65; x61; x66; x20; x62; x6c; x6f; x63; x6b; x20; x73; x68; x61; x72; x65; x64; x20; x62; x79; x20; x74; x77; x6f; x20; x70; x61; x72; x65; x6e; x74; x73].
+Definition wit_c2 : bytes := [x01; x55; x12; x20; x2e; x65; xb9; xe1; x79; xb0; xa9; x12; x0e; xe2; x89; xca; x80; xbf; x4d; x28; x0e; x4c; x79; x5d; x60; xe0; xa8; xd4; x08; x85; xb0; x04; x9c; x91; x92; x0a].
+Definition wit_d2 : bytes := [x6c; x65; x61; x66; x20; x62; x6c; x6f; x63; x6b; x20; x73; x68; x61; x72; x65; x64; x20; x62; x79; x20; x74; x77; x6f; x20; x70; x61; x72; x65; x6e; x74; x73].
+Definition wit_loads : list load := [ld_of wit_c0 wit_d0; ld_of wit_c1 wit_d1; ld_of wit_c2 wit_d2].
+
+Lemma wit_cid_ok0 : cid_bytes_ok wit_c0.
+Proof.
+  exists (mkcid 1 113 18 (drop 4 wit_c0)). split; [|vm_compute; reflexivity].
+  right. repeat split; vm_compute; try reflexivity; try discriminate.
+Qed.
+Lemma wit_cid_ok1 : cid_bytes_ok wit_c1.
+Proof.
+  exists (mkcid 1 85 18 (drop 4 wit_c1)). split; [|vm_compute; reflexivity].
+  right. repeat split; vm_compute; try reflexivity; try discriminate.
+Qed.
+
+Example wit_loads_ok : Forall load_ok wit_loads /\ Forall reads_all wit_loads.
+Proof.
+  split.
+  - repeat constructor; cbn [l_cid ld_of]; auto using wit_cid_ok0, wit_cid_ok1.
+  - repeat constructor.
+Qed.
+
+Example wit_numbers :
+  new_selective_writer false wit_root (mktrace wit_loads true) = Some 323
+  /\ new_selective_writer true wit_root (mktrace wit_loads true) = Some 254
+  /\ option_map (fun w => (w_n w, w_err w))
+        (selective_write id_order false wit_root (mktopts 0 0 0) (mktrace wit_loads true) (mktrace wit_loads true))
+     = Some (305, Some TSizeMismatch).
+Proof. repeat split; vm_compute; reflexivity. Qed.
+
 Theorem selective_write_unfixed_refuted :
   exists order root o ls w,
     Forall load_ok ls /\ Forall reads_all ls /\
     selective_write order false root o (mktrace ls true) (mktrace ls true) = Some w /\
     w_err w = Some TSizeMismatch.
 Proof.
-  exists ex_order, ex_root, ex_opts, ex_loads. eexists.
-  destruct ex_loads_ok as (H1 & H2 & _).
+  exists id_order, wit_root, (mktopts 0 0 0), wit_loads. eexists.
+  destruct wit_loads_ok as (H1 & H2).
   split; [exact H1|]. split; [exact H2|]. split; [vm_compute; reflexivity|reflexivity].
 Qed.
 
@@ -116,3 +155,20 @@ Example ex_write_car :
   write_car None (blocks_of ex_loads) true
   = (ld (enc_header None 1) ++ enc_sections [(ex_root, ex_rootd); (ex_leaf, ex_leafd); (ex_mid, ex_midd)], true).
 Proof. vm_compute. reflexivity. Qed.
+
+(* hypotheses of C15_index_records_locate and C15_traverse_v1_reads_back are satisfiable *)
+Example ex_index_record : In (ex_leaf, 40) (v1_recs ex_root ex_loads).
+Proof. vm_compute. right. left. reflexivity. Qed.
+
+Example ex_archive_ok :
+  archive_ok (fun _ _ => None) dec_header_canon (mkropts false 33554432 8388608 true)
+             [ex_root] (first_occ (blocks_of ex_loads)).
+Proof.
+  split.
+  - apply hdr_good_canon. split; [|cbn; unfold two64; lia].
+    constructor; [|constructor]. split; [exact ex_cid_ok_root|vm_compute; reflexivity].
+  - split; [vm_compute; discriminate|]. split; [vm_compute; reflexivity|]. split.
+    + rewrite ex_first_occ. repeat constructor; cbn [fst snd];
+        auto using ex_cid_ok_root, ex_cid_ok_mid, ex_cid_ok_leaf; vm_compute; try reflexivity; discriminate.
+    + cbn [o_trusted]. discriminate.
+Qed.
